@@ -52,7 +52,7 @@ def make_case(seed: int, tier: str, prop: str, opts=None) -> Dict[str, Any]:
         sc["config"]["lazy"] = True
         return {"scenario": sc, "schedules": [c["schedule"]]}
     elif fam == 19 and not force:
-        sc = gen.gen_twopath(seed, tier)
+        sc = gen.gen_deeptail(seed, tier) if h64(seed, "family2") % 10 < 3 else gen.gen_twopath(seed, tier)
     elif fam == 12 and not force:
         sc = gen.gen_diamond(seed, tier)
     else:
